@@ -36,6 +36,9 @@ pub struct Sim {
     links: Links,
     agg: UplinkReportReader,
     readers: BTreeMap<u64, UplinkReportReader>,
+    /// a second handle on every lane's reporter, as the read task's lane sender holds one: the
+    /// counters outlive the registry's entry and whoever reads them keeps seeing the last value set
+    holders: Vec<UplinkReporter>,
     // reference
     pairs: BTreeSet<(u64, u8)>,
     registered: BTreeSet<u64>,
@@ -51,6 +54,7 @@ impl Sim {
             links: Links::new(Some(agg)),
             agg: reader,
             readers: BTreeMap::new(),
+            holders: vec![],
             pairs: BTreeSet::new(),
             registered: BTreeSet::new(),
             removed_lanes: BTreeSet::new(),
@@ -96,6 +100,7 @@ impl Sim {
             Op::Register(l) => {
                 let rep = UplinkReporter::default();
                 self.readers.insert(*l, rep.reader());
+                self.holders.push(rep.clone());
                 self.links.register_reporter(*l, rep);
                 self.registered.insert(*l);
             }
@@ -154,7 +159,14 @@ impl Sim {
         for l in LANES {
             if let Some(rd) = self.readers.get(&l) {
                 if self.removed_lanes.contains(&l) {
-                    continue; // the lane is gone; nothing is claimed about its reporter
+                    // the lane is gone, its counters are not (the read task still holds them and the
+                    // introspection reader keeps pulsing): no remote is linked to it any more
+                    if let Some(s) = rd.snapshot() {
+                        if s.link_count != 0 {
+                            return Err(format!("law=removed_lane_reports_no_links: lane {} was removed (failed) but still reports {} links", l, s.link_count));
+                        }
+                    }
+                    continue;
                 }
                 let want_links = self.pairs.iter().filter(|(x, _)| *x == l).count() as u64;
                 match rd.snapshot() {
